@@ -212,6 +212,25 @@ def step (w : World) (tok : String) : Option (World × String) :=
     else
       let (t, ok) := upd s.rx
       some ({ w with sess := w.sess.set! i { s with rx := t } }, b01 ok)
+  | ["fl", si, ri, first, count] => do
+    -- `count` streams (SSRC first, first+1, …) send one packet each from session `si` to session `ri`
+    let i ← si.toNat?
+    let j ← ri.toNat?
+    let first ← first.toNat?
+    let count ← count.toNat?
+    let s0 ← w.sess[i]?
+    let r0 ← w.sess[j]?
+    let step (st : Sess × Sess × Nat) (k : Nat) : Sess × Sess × Nat :=
+      let (s, r, acc) := st
+      let p : Pkt := ⟨⟨false, 96, 1, 0, first + k, [], none⟩, [byteOf k], 0⟩
+      let (res, s') := s.protectRtp S w.now p
+      match res with
+      | .error _ => (s', r, acc)
+      | .ok wire =>
+        let (rr, r') := r.receiveRtp S w.now wire
+        (s', r', acc + (match rr with | .ok _ => 1 | .error _ => 0))
+    let (s', r', acc) := (List.range count).foldl step (s0, r0, 0)
+    some ({ w with sess := (w.sess.set! i s').set! j r' }, s!"ok{acc}")
   | ["sn", si] => do
     let s ← w.sess[← si.toNat?]?
     some (w, showSess s)
